@@ -2,7 +2,7 @@ SPECIFICATION Spec
 CONSTANTS
   Replicas = {1, 2, 3}
   Clients = {1, 2}
-  MaxLog = 3
+  MaxLog = 2
   MaxReads = 2
   Mode = "fixed"
 INVARIANTS RevisionIsPosition ResultsAgree LinearizableSeesAcked ReadsSeePrefix
